@@ -158,7 +158,13 @@ Doc == [
                 industrial_foods |-> {<<"ADD_SEAWEED", "False">>, <<"ADD_METHANE_SCP", "True">>, <<"ADD_CELLULOSIC_SUGAR", "True">>, <<"ADD_GREENHOUSES", "False">>, <<"OG_USE_BETTER_ROTATION", "False">>},
                 relocated_crops |-> {<<"ADD_SEAWEED", "False">>, <<"ADD_METHANE_SCP", "False">>, <<"ADD_CELLULOSIC_SUGAR", "False">>, <<"ADD_GREENHOUSES", "False">>, <<"OG_USE_BETTER_ROTATION", "True">>},
                 greenhouse |-> {<<"ADD_SEAWEED", "False">>, <<"ADD_METHANE_SCP", "False">>, <<"ADD_CELLULOSIC_SUGAR", "False">>, <<"ADD_GREENHOUSES", "True">>, <<"OG_USE_BETTER_ROTATION", "False">>}],
-  waste |-> [zero |-> {<<"WASTE_RETAIL", "0">>}],
+  \* ("row:<column>": one hundred times that column of the country's data row)
+  waste |-> [zero |-> {<<"WASTE_RETAIL", "0">>},
+             tripled_prices_in_country |-> {<<"WASTE_RETAIL", "row:retail_waste_price_triple">>},
+             doubled_prices_in_country |-> {<<"WASTE_RETAIL", "row:retail_waste_price_double">>},
+             baseline_in_country |-> {<<"WASTE_RETAIL", "row:retail_waste_baseline">>},
+             tripled_prices_globally |-> {<<"WASTE_RETAIL", "6.08">>}, doubled_prices_globally |-> {<<"WASTE_RETAIL", "10.6">>},
+             baseline_globally |-> {<<"WASTE_RETAIL", "24.98">>}],
   crop_disruption |-> [zero |-> {<<"ADD_OUTDOOR_GROWING", "True">>, <<"RATIO_CROPS_YEAR1", "1">>, <<"RATIO_CROPS_YEAR10", "1">>},
                        all_crops_die_instantly |-> {<<"ADD_OUTDOOR_GROWING", "False">>, <<"RATIO_CROPS_YEAR1", "0">>}],
   grasses |-> [baseline |-> {<<"RATIO_GRASSES_YEAR1", "1">>, <<"RATIO_GRASSES_YEAR10", "1">>}, all_crops_die_instantly |-> {<<"RATIO_GRASSES_YEAR1", "0">>, <<"RATIO_GRASSES_YEAR10", "0">>}] ]
